@@ -196,6 +196,13 @@ def corpus(tier, seed):
                 for L in lens:
                     for seq in itertools.product(alphabet, repeat=L):
                         yield "C08", c08.document(setup, collision, seq, nested, clip, "s" if L == 1 else "")
+    # templates / shapes with ids in defs next to three or more gradients that get transformed copies (nested svg without clip),
+    # at the finest rounding as well: the order of defs must not depend on what leaves defs later
+    if tier == "quick":
+        for setup in ("h->g->t", "g+h"):
+            targets = ["g", "h"]
+            for seq in itertools.product([(k, t) for k in ("xf2", "fadegroupxf", "use2", "vis") for t in targets], repeat=2):
+                yield "C08n", c08.document(setup, "grad:g_0", seq, True, False, "")
     # rendering corpora of the other checks, when they expose one
     for modname in ("c02", "c03", "c04", "c05", "c06", "c19"):
         try:
@@ -222,6 +229,8 @@ def cases(tier, seed):
             nds = [3] if k % 4 else [0, 1, 2, 3, 4, 5, 6]
         if src.startswith("F:"):
             nds = [3, 0, 6] if tier == "quick" else [0, 1, 2, 3, 4, 5, 6]
+        if src == "C08n":
+            nds = [3, 6]
         if src in ("NEARCLOSED", "FADING"):
             nds = [0, 1, 2, 3, 4, 5, 6]
         if src == "BIG":
